@@ -18,12 +18,15 @@ ITEMS = ["s", "r", "rt", "w", "m", "env"]
 
 
 # ---------------------------------------------------------------- scenario catalogue
-def sc(kind, comp, gate, rows0, rounds, script, cut="n", wf="n"):
+def sc(kind, comp, gate, rows0, rounds, script, cut="n", wf="n", flags=()):
+    """flags: environment faults of the scenario - cwf (the Write of the Cancel packet fails), cle (conn.Close reports
+    an error although it closed); printed as an optional tenth element so that the old case lines stay valid"""
     def pk(p):
         return "(" + " ".join(str(x) for x in p) + ")"
     b = lambda v: "t" if v else "f"
-    return "(sc %s %s %s %d (%s) (%s) %s %s)" % (kind, b(comp), b(gate), rows0, " ".join(rounds),
-                                                 " ".join(pk(p) for p in script), cut, wf)
+    return "(sc %s %s %s %d (%s) (%s) %s %s%s)" % (kind, b(comp), b(gate), rows0, " ".join(rounds),
+                                                   " ".join(pk(p) for p in script), cut, wf,
+                                                   (" (" + " ".join(flags) + ")") if flags else "")
 
 
 def base_scenarios(tier):
@@ -81,6 +84,41 @@ def fault_variants(base, tier):
             s2 = list(script[:j]) + [(script[j][0], bad)]
             out.append(("%s-at-%d" % (bad, j), mk(script=s2)))
     out.append(("server-silent", mk(script=list(script[:-1]))))
+    return out
+
+
+def extra_scenarios(tier):
+    """Faults and environments that are scenario FLAGS or server scripts of their own (found by seeded changes, rounds
+    5 and 6), as (name, scenario) pairs: a server that repeats the INSERT header block (the handler Do installs hands
+    over one value through a channel of capacity one: the third block waits in a select that also watches the
+    context); the Write of the Cancel packet failing; conn.Close reporting an error; sendQuery itself failing."""
+    hdr2 = [(1, "info"), (1, "info"), (4, "end")]
+    hdr3 = [(1, "info"), (1, "info"), (1, "info"), (4, "end")]
+    out = [
+        ("insert-header-twice/none", sc("ins", False, False, 2, [], hdr2)),
+        ("insert-header-thrice/none", sc("ins", False, False, 2, [], hdr3)),
+        ("insert-header-thrice/cancel-write-fails", sc("ins", False, False, 2, [], hdr3, flags=("cwf",))),
+        ("insert-stream-header-thrice/none", sc("str", False, False, 2, ["eof"], [(1, "info"), (1, "info"), (1, "info"), (3, "end")])),
+        ("select-sendquery-fails/none", sc("selx", False, True, 0, [], [(1, "data", "ok"), (1, "end")])),
+        ("select-sendquery-fails/exception-at-0-after-0-chunks", sc("selx", False, True, 0, [], [(0, "exc")])),
+        ("select-sendquery-fails/close-reports-error", sc("selx", True, True, 0, [], [(0, "prog", "ok"), (1, "end")], flags=("cle",))),
+        ("select/cancel-write-fails", sc("sel", False, False, 0, [], [(1, "data", "ok"), (1, "end")], flags=("cwf",))),
+        ("select/callback-0-fails-cancel-write-fails", sc("sel", False, False, 0, [], [(1, "data", "err"), (1, "end")], flags=("cwf",))),
+        ("select/server-silent-cancel-write-fails", sc("sel", False, False, 0, [], [(1, "data", "ok")], flags=("cwf", "cle"))),
+        ("insert/cancel-write-fails", sc("ins", False, True, 2, [], [(1, "info"), (4, "end")], flags=("cwf",))),
+        # the server's exception packet itself is cut: inside its nested element, after one complete element (C04A)
+        ("select/exception-cut-inside", sc("sel", False, False, 0, [], [(1, "exc")], cut="(0 t)")),
+        ("insert/exception-cut-inside", sc("ins", False, True, 2, [], [(1, "info"), (2, "exc")], cut="(1 t)")),
+        ("select/cut-before-0-close-reports-error", sc("sel", False, False, 0, [], [(1, "data", "ok"), (1, "end")], cut="(0 f)", flags=("cle",))),
+        ("insert/write-fault-1-partial-close-reports-error", sc("ins", False, True, 2, [], [(1, "info"), (4, "end")], wf="(1 t)", flags=("cle",))),
+    ]
+    if tier == "thorough":
+        out += [
+            ("insert-stream/cancel-write-fails", sc("str", False, True, 2, ["ok", "eof"], [(1, "info"), (3, "prog", "ok"), (6, "end")], flags=("cwf",))),
+            ("insert-compressed-header-thrice/none", sc("ins", True, True, 2, [], [(1, "info"), (1, "info"), (1, "info"), (2, "end")])),
+            ("select-telemetry/cancel-write-fails-close-reports-error", sc("sel", False, False, 0, [],
+             [(1, "prog", "ok"), (1, "tc"), (1, "data", "ok"), (1, "prof", "ok"), (1, "tot", "ok"), (1, "end")], flags=("cwf", "cle"))),
+        ]
     return out
 
 
@@ -213,7 +251,8 @@ def plans_for(scens_named, want_env, budget, rng, res, tag):
         lines.append(("do %s (%s)" % (s, " ".join(x)), rr["plan"], rr["obs"], name))
         if "/callback-" in name and (" prog err)" in s or " prof err)" in s):
             # the same failing telemetry callback, its error wrapping a *ch.Exception met elsewhere (a nested query
-            # on another connection): for the model a failing callback is a failing callback (model_case)
+            # on another connection): the model's PContX, which for the code as it is now steps like a failing callback
+            # (same plan, same observation: checked again through the transcript interface in run_gated)
             sx = s.replace(" prog err)", " prog errx)").replace(" prof err)", " prof errx)")
             lines.append(("do %s (%s)" % (sx, " ".join(x)), rr["plan"], rr["obs"], name + "-wrapping-exception"))
     ex[tag + "_explore_s"] = round(ex.get(tag + "_explore_s", 0) + time.time() - t0, 1)
@@ -221,8 +260,10 @@ def plans_for(scens_named, want_env, budget, rng, res, tag):
 
 
 def model_case(c):
-    """the model's reading of a case line: the dynamic type of a callback's error is not part of the model"""
-    return c.replace(" errx)", " err)")
+    """the model's reading of a case line.  The dynamic type of a callback's error IS part of the model now ([PContX]:
+    the callback fails with an error wrapping a *ch.Exception; for [all_fixed] it steps like any failing callback, for
+    [before_8cdbcdc] it is finding 22: do_safe_refuted_callback_exception), so the line is passed on unchanged"""
+    return c
 
 
 def run_gated(res, fam, lines, seed, wd, free_n, what):
@@ -319,15 +360,24 @@ def explore(res, scale=1, seed=None):
     for base in base_scenarios(res.tier):
         for fname, s in fault_variants(base, res.tier):
             named.append((base[0] + "/" + fname, s))
+    extra = extra_scenarios(res.tier)
+    named += extra
     budget = BUDGET[res.tier]
     if budget is not None:
         budget *= scale
     lines = plans_for(named, False, budget, rng, res, "c04")
+    # the scenarios whose Cancel write fails, or whose server repeats the header block, are about a caller that gives
+    # up: for them the cancellation at every state and the transitions after it are steered here as well (C04's oracle
+    # judges them: closed, or clean), a seeded sample
+    env_named = [(n, s_) for n, s_ in extra if "cwf" in s_ or "header-thrice" in n]
+    lines += plans_for(env_named, True, None if budget is None else 150 * scale, rng, res, "c04env")
     run_gated(res, "c04", lines, seed, wd, FREE[res.tier] * scale,
               "correspondence(Client.Do under a steered interleaving: error classes, closed, Close calls, tokens written, "
               "outbound boundary, callbacks, follow-up Ping)")
     res.extra["scenario_fault_pairs"] = len(named)
-    res.extra["rule"] = ("gated runs: every (scenario, fault) pair of the catalogue in checks/c04.py (7 scenarios quick / 9 thorough x "
+    res.extra["rule"] = ("gated runs: every (scenario, fault) pair of the catalogue in checks/c04.py (extra_scenarios: a server "
+                         "repeating the INSERT header block, the Cancel write failing, Close reporting an error, sendQuery "
+                         "failing - the first two also with the cancellation at every state; 7 scenarios quick / 9 thorough x "
                          "every cut position between and inside server packets, every client chunk failing with and without a "
                          "partial write, every callback failing, an exception before every server packet after 0..n client "
                          "chunks, unknown / unexpected / undecodable packet at every position, silent server); the model's "
